@@ -199,3 +199,26 @@ def falsy_numeric(ctx, rid: str, name_re: str, what: str, scope: Tuple[str, ...]
     if n == 0:
         ctx.ok(rid, f"src/primaite::<package>::no truthiness test of a numeric setting matching /{name_re}/", "",
                f"{n_subjects} numeric settings watched, none is tested by truthiness")
+
+
+# ---------------------------------------------------------------------------------------------------------------------------------
+def per_step_resets(ctx, rid: str) -> None:
+    """Per-step accumulators (counts and lists that observations and rewards read as "this step's" value) are cleared by pre_timestep
+    at the start of every step.  A reset that is guarded by the component's operating state leaves last step's value in the state for
+    as long as the component is not running - it is then reported again as if it had happened in the current step."""
+    ix = ctx.ix
+    ctx.rule(rid, "every per-step reset in a simulator pre_timestep is unconditional with respect to the component's operating state")
+    n = 0
+    for f in ix.all_functions():
+        if isinstance(f.node, ast.Lambda) or f.name != "pre_timestep" or "/simulator/" not in f.path:
+            continue
+        g = CFG(f.node)
+        for x in g.nodes:
+            if x.kind == "stmt" and isinstance(x.ast, ast.Assign) and isinstance(x.ast.value, (ast.Constant, ast.List, ast.Dict, ast.Set)) \
+                    and any(isinstance(t, ast.Attribute) and unparse(t.value) == "self" for t in x.ast.targets):
+                p = g.path_avoiding([x], lambda e: bool(e.label and e.label[0] == "cond" and "operating_state" in unparse(e.label[1])))
+                n += 1
+                ctx.record(rid, ctx.key(f, f"reset `{unparse(x.ast)[:50]}` does not depend on the operating state"), f.loc(x.ast), p is not None,
+                           "reached on a path that tests no operating state" if p is not None else
+                           "the reset happens only in some operating states: in the others the value of an earlier step stays in the state")
+    ctx.floor(rid, "per-step resets in pre_timestep", n, 6)
